@@ -280,7 +280,7 @@ impl Property for C19 {
         "fault_enumeration"
     }
     fn rule(&self) -> String {
-        format!("single-edit corruptions addressed by (file, line, edit kind) over the shipped corpus ({} files, {} lines): {:?}; thorough enumerates every line of every file x every applicable kind, quick a seeded slice; each damaged text goes through ctehexml::parse + catalogue merge + Model::try_from (.ctehexml), Data::new + catalogue + try_from (.cte), kyg::parse, tbl::parse, and for KyG/tbl edits also through hulc2model::collect_hulc_data(dir, true, true); outcome in {{converted, rejected with error, panic (site captured), CPU budget exceeded = hang}}; non-trivial = distinct (file, line, kind) whose edit applies", corpus().files.len(), corpus().cum.last().copied().unwrap_or(0), EDITS)
+        format!("single-edit corruptions addressed by (file, line, edit kind) over the shipped corpus ({} files, {} lines): {:?}; thorough enumerates every line of every file x every applicable kind, quick a seeded slice; in addition a sampled (not exhaustive) workload damages generated projects (64 per seed: every block kind of the BDL generator in random layouts, generated VyP/GT/on-site/ventilation sections with every kind the format knows, half of the visits inside the system sections); each damaged text goes through ctehexml::parse + catalogue merge + Model::try_from (.ctehexml), Data::new + catalogue + try_from (.cte), kyg::parse, tbl::parse, and for KyG/tbl edits also through hulc2model::collect_hulc_data(dir, true, true); outcome in {{converted, rejected with error, panic (site captured), CPU budget exceeded = hang}}; non-trivial = distinct (file, line, kind) whose edit applies", corpus().files.len(), corpus().cum.last().copied().unwrap_or(0), EDITS)
     }
     fn assumptions(&self) -> Vec<String> {
         vec![
@@ -291,7 +291,7 @@ impl Property for C19 {
     }
     fn workloads(&self, tier: Tier) -> Vec<(String, u64)> {
         let total = corpus().cum.last().copied().unwrap_or(0);
-        vec![("line".into(), tier.pick(3500, total))]
+        vec![("line".into(), tier.pick(3500, total)), ("generated-line".into(), tier.pick(700, 60_000))]
     }
     fn exhaustive(&self, tier: Tier) -> bool {
         tier == Tier::Thorough
@@ -305,6 +305,7 @@ impl Property for C19 {
         v.push(("filekind:Kyg".into(), 100));
         v.push(("filekind:Tbl".into(), 100));
         v.push(("whole_export_runs".into(), 100));
+        v.push(("generated_system_section_lines_visited".into(), 200));
         v
     }
     fn time_cap_s(&self, tier: Tier) -> u64 {
@@ -322,8 +323,34 @@ impl Property for C19 {
             obs.harness_error("the LIDER catalogue does not load".into());
             return;
         }
-        let (fi, line) = self.locate(case);
-        let (path, kind, lines) = &c.files[fi];
+        // a generated project (every block kind of the BDL generator, generated system sections with every
+        // kind the format knows) damaged at one seeded line
+        let generated: (PathBuf, FileKind, Vec<String>);
+        let (fi, line) = if case.kind == "generated-line" {
+            let mut rng = case.rng();
+            // 64 projects per seed, so that lines of one project are visited many times with different edits
+            let mut prng = crate::rng::Rng::new(crate::rng::derive_seed(case.base_seed, "C19", "generated-project", rng.below(64)));
+            let b = crate::gen::bdl::gen_building(&mut prng, &crate::gen::bdl::BuildCfg::full());
+            let lay = if prng.chance(0.5) { crate::gen::bdl::Layout::hulc() } else { crate::gen::bdl::Layout::random(&mut prng) };
+            let bdl = crate::gen::bdl::print_blocks(&mut prng, &b.blocks(), &lay);
+            let (extra, sys, _) = crate::gen::sysxml::gen_systems(&mut prng, &b.space_names(), false);
+            let full = b.ctehexml_ext(&bdl, &extra, &sys);
+            let lines: Vec<String> = full.lines().map(|l| l.to_string()).collect();
+            let n = lines.len();
+            // the system sections are short next to the BDL text: give them half of the visits
+            let first_sys = lines.iter().position(|l| l.contains("<Definicion_Sistema")).unwrap_or(n);
+            let line = if first_sys < n && rng.chance(0.5) { first_sys + rng.usize(n - first_sys) } else { rng.usize(n.max(1)) };
+            generated = (PathBuf::from(format!("generated-project-{}.ctehexml", prng.below(1_000_000))), FileKind::Ctehexml, lines);
+            obs.count("generated_lines_visited");
+            if line >= first_sys {
+                obs.count("generated_system_section_lines_visited");
+            }
+            (usize::MAX, line)
+        } else {
+            generated = (PathBuf::new(), FileKind::Cte, vec![]);
+            self.locate(case)
+        };
+        let (path, kind, lines) = if fi == usize::MAX { &generated } else { &c.files[fi] };
         if lines.is_empty() {
             return;
         }
@@ -342,7 +369,7 @@ impl Property for C19 {
             obs.eval();
             obs.count(&format!("edit:{}", EDITS[k]));
             obs.count(&format!("filekind:{:?}", kind));
-            obs.nontrivial(crate::rng::fnv64(format!("{}{}{}", fi, line, k).as_bytes()));
+            obs.nontrivial(crate::rng::fnv64(format!("{}{}{}{}", fi, fname, line, k).as_bytes()));
             obs.note(&format!("{:?}:{}", kind, EDITS[k]), &format!("file={} line={} edit={} text={:?}", fname, line + 1, EDITS[k], lines[line].trim().chars().take(80).collect::<String>()));
             let ctx = || json!({"file": fname, "line": line + 1, "edit": EDITS[k], "original_line": lines[line]});
             match self.run_one(*kind, &text, &scratch) {
@@ -373,6 +400,6 @@ impl Property for C19 {
         }
     }
     fn extra_evidence(&self, agg: &Obs) -> Value {
-        json!({"lines_in_corpus": corpus().cum.last(), "files_in_corpus": corpus().files.len(), "hang_verdicts": agg.counters.get("hang_verdicts")})
+        json!({"exhaustive_scope": "the flag refers to the (file, line, edit kind) space of the shipped corpus only; the generated-project workload is sampled", "lines_in_corpus": corpus().cum.last(), "files_in_corpus": corpus().files.len(), "hang_verdicts": agg.counters.get("hang_verdicts")})
     }
 }
